@@ -3,13 +3,13 @@ module verifharness
 go 1.26.4
 
 require (
+	github.com/fxamacker/cbor v1.5.1
 	github.com/privacybydesign/gabi v0.0.0
 	github.com/sirupsen/logrus v1.9.4
 )
 
 require (
 	github.com/bwesterb/go-exptable v1.0.0 // indirect
-	github.com/fxamacker/cbor v1.5.1 // indirect
 	github.com/go-errors/errors v1.5.1 // indirect
 	github.com/klauspost/cpuid/v2 v2.3.0 // indirect
 	github.com/mr-tron/base58 v1.3.0 // indirect
